@@ -296,6 +296,8 @@ pub enum TaskKind {
     Gated,
     /// yields this many times
     Long(u32),
+    /// round r of a long series of rendezvous: blocks until `size` tasks of round r are inside
+    Round(u32),
 }
 
 #[derive(Serialize, Deserialize, Clone, Debug, PartialEq)]
